@@ -155,7 +155,7 @@ func checkC11(o options) int {
 			}
 			var rp map[string]interface{}
 			dst := filepath.Join(outDir, fmt.Sprintf("C11-%d-%d.json", v.Seed, unknown))
-			if err := readJSONFile(final, &rp); err == nil {
+			if err := readJSONGeneric(final, &rp); err == nil {
 				rp["repo_tree"] = repoTree()
 				rp["verif_seed"] = o.seed
 				rp["race_detector"] = bin == race.bin
